@@ -94,6 +94,11 @@ LANG = ['x = 5',
  'n2 = 0\ndef bump():\n    n2 = 1\n    return n2\nprint(bump(), n2)',
  "def uses_before():\n    print(late_name)\nlate_name = 'ok'\nuses_before()",
  'def bad_local():\n    print(x)\n    x = 1\nbad_local()']
+# an exception that leaves through the student's own clean-up code (the reported line is where it was raised)
+LANG += ["log = []\ndef avg(v):\n    try:\n        return sum(v) / len(v)\n    finally:\n        log.append('a')\n        log.append('b')\navg([])",
+         "def parse(t):\n    try:\n        n = int(t)\n    except ValueError:\n        print('bad', t)\n        raise\n    return n\nparse('twelve')",
+         "class M:\n    def __enter__(self):\n        return self\n    def __exit__(self, *a):\n        done = 1\n        return False\nwith M():\n    y = 1\n    1 / 0\n    z = 2",
+         "try:\n    1 / 0\nfinally:\n    print('cleanup')\n    marker = 1"]
 QUEUES = [[], ['3'], ['3', 'x'], ['3 ', ' x\t']]
 EXTRA_FILES = {'helper.py': "print('loading helper')\nHX = 1\ndef hf(a):\n    return a + HX\n",
                'data.txt': "line one\nline two\n"}
